@@ -255,9 +255,10 @@ func (s *Sim) drainRestarts() {
 	for _, inc := range q {
 		if d := s.daemons[inc]; d != nil && d.alive {
 			d.alive = false
+			deadIncs.Store(inc, true)
 			for _, c := range s.net.snapshot() {
 				if c.owner == inc {
-					c.dead = true
+					c.dead.Store(true)
 					s.zk.connClosed(c)
 				}
 			}
